@@ -4,6 +4,7 @@ pub mod c02;
 pub mod c03;
 pub mod c04;
 pub mod c08;
+pub mod c11;
 pub mod c12;
 pub mod c16;
 pub mod c18;
@@ -11,5 +12,5 @@ pub mod c18;
 use crate::runner::PropSpec;
 
 pub fn registry() -> Vec<PropSpec> {
-    vec![c01::SPEC, c02::SPEC, c03::SPEC, c04::SPEC, c08::SPEC, c12::SPEC, c16::SPEC, c18::SPEC]
+    vec![c01::SPEC, c02::SPEC, c03::SPEC, c04::SPEC, c08::SPEC, c11::SPEC, c12::SPEC, c16::SPEC, c18::SPEC]
 }
